@@ -244,6 +244,52 @@ def gen_session(rng, lzo, force=None):
             "fmt": fmt.name, "sfmt": sfmt.name, "encs": encs, "size": (W, H), "seg": segsizes}
 
 
+def gen_tight_boundary(rng, target):
+    """session whose single Tight rectangle has a compressed length of exactly `target` bytes
+    (compact-length boundaries 127/128/16383/16384): 8bpp, copy filter, fresh level-0 stream"""
+    fmt = E.FMT_BY_NAME["bgr233"]
+    n = None
+    for cand in range(max(12, target - 40), target + 1):
+        co = zlib.compressobj(0)
+        if len(co.compress(b"\x5a" * cand) + co.flush(zlib.Z_SYNC_FLUSH)) == target:
+            n = cand
+            break
+    if n is None:
+        return None
+    h = next((d for d in range(1, 400) if n % d == 0 and n // d <= 6000), None)
+    if h is None:
+        return None
+    w = n // h
+    W, H = w + rng.randint(0, 3), h + rng.randint(0, 3)
+    sess = E.Session(rng, fmt, W, H)
+    x, y = rng.randint(0, W - w), rng.randint(0, H - h)
+    px = bytes(rng.getrandbits(8) for _ in range(n))
+    sid = rng.randrange(4)
+    co = zlib.compressobj(0)
+    z = co.compress(px) + co.flush(zlib.Z_SYNC_FLUSH)
+    assert len(z) == target
+    sess.zs[sid].co = co
+    # first use of the stream: a reset bit for it is harmless and exercises the reset path
+    ctl = bytes([(sid << 4) | (rng.choice([0, 1 << sid]))])
+    rect = struct.pack(">HHHHI", x, y, w, h, 7) + ctl + E.compact_len(target) + z
+    sess.put(x, y, w, h, px)
+    # a second rectangle on the same stream proves the stream state persisted
+    px2 = bytes(rng.getrandbits(8) for _ in range(w * h))
+    z2 = sess.zs[sid].feed(px2)
+    rect2 = struct.pack(">HHHHI", x, y, w, h, 7) + bytes([sid << 4]) + E.compact_len(len(z2)) + z2
+    sess.put(x, y, w, h, px2)
+    segs = rng.choice([[0], [1], [7], [8191, 1]])
+    lines = ["client %s enc=tight cursor=1 fbmode=%d" % (" ".join(str(v) for v in fmt.tuple()), rng.choice([0, 1])),
+             "seg " + ",".join(str(v) for v in segs),
+             "init " + hexs(E.handshake(E.FMT_BY_NAME["rgb888le"], W, H, b"b")),
+             "z %d %s %s" % (sid, hexs(z), hexs(px)), "z %d %s %s" % (sid, hexs(z2), hexs(px2)),
+             "msg " + hexs(E.fbu([rect, rect2])), "end"]
+    expect = [None, None, ("init", W, H, b"b"), None, None,
+              ("msg", crc_fb(sess), W, H, ["upd:%d:%d:%d:%d" % (x, y, w, h)] * 2 + ["fin"]), None]
+    return {"script": "\n".join(lines) + "\n", "expect": expect, "tags": ["tight:clen=%d" % target, "tight:copy", "boundary"],
+            "fmt": fmt.name, "sfmt": "rgb888le", "encs": ["tight"], "size": (W, H), "seg": segs}
+
+
 # --------------------------------------------------------------------------------------------
 # direct oracle (no model involved): the library's observations against the generator's truth
 # --------------------------------------------------------------------------------------------
@@ -299,6 +345,28 @@ def oracle(sessn, impl):
     return None
 
 
+def gen_roundtrip(rng):
+    """script for harness/c07rt.c: this repository's server encodes, the client library decodes"""
+    W, H = rng.choice([(rng.randint(1, 120), rng.randint(1, 90)), (300, 200), (17, 130), (640, 35)])
+    encs = rng.sample(["raw", "rre", "corre", "hextile", "zlib", "tight", "ultra", "zrle"], rng.randint(1, 3))
+    if rng.random() < 0.6:
+        encs.append("copyrect")
+    lines = ["server %d %d %d" % (W, H, rng.randint(1, 10 ** 6)),
+             "client enc=%s level=%d" % ("+".join(encs), rng.randint(0, 9)), "init"]
+    for _ in range(rng.randint(1, 6)):
+        for _k in range(rng.randint(1, 3)):
+            w, h = rng.randint(1, W), rng.randint(1, H)
+            x, y = rng.randint(0, W - w), rng.randint(0, H - h)
+            if rng.random() < 0.25 and "copyrect" in encs:
+                dx, dy = rng.randint(-8, 8), rng.randint(-8, 8)
+                if 0 <= x - dx and x - dx + w <= W and 0 <= y - dy and y - dy + h <= H and (dx or dy):
+                    lines.append("copy %d %d %d %d %d %d" % (x, y, w, h, dx, dy))
+                    continue
+            lines.append("draw %d %d %d %d %d %d" % (x, y, w, h, rng.randint(1, 10 ** 6), rng.randint(0, 3)))
+        lines.append("update")
+    return "\n".join(lines) + "\n", encs
+
+
 def finding_of(s):
     """known-finding predicates (precise: configuration of the session, not the failure text)"""
     f = E.FMT_BY_NAME.get(s.get("fmt") or "")
@@ -321,9 +389,18 @@ def run(ctx):
     lzo = Lzo(h)
     fails, samples, dist = [], [], {"tags": {}, "fmt": {}, "enc": {}, "seg": {}}
     sessions = []
+    if ctx.replay and json.load(open(ctx.replay)).get("roundtrip"):
+        rec = json.load(open(ctx.replay))
+        hrt = ctx.harness("c07rt", libs=("server", "client"), extra=HARNESS_EXTRA)
+        sc = "\n".join(rec["script"]) + "\n"
+        rc, outl, err = ctx.run_lines(hrt, sc, timeout=120)
+        bad = rc != 0 or any(op in ("init", "update") and not ob.startswith("eq") for op, ob in zip(sc.splitlines(), outl))
+        return {"evaluations": 1, "distinct_nontrivial": 1, "rule": "replay of a round-trip script", "samples": [], "distribution": {},
+                "failures": [{"kind": "oracle", "what": "C07 round trip", "detail": str(outl[-3:]) + err[-500:], "script": rec["script"],
+                              "roundtrip": True}] if bad else [], "partial": [], "assumptions": []}
     if ctx.replay:
         rec = json.load(open(ctx.replay))
-        sessions = [{"script": "\n".join(rec.get("script", [])) + "\n", "expect": None, "tags": []}]
+        sessions = [{"script": "\n".join((rec.get("script") or (rec.get("first_disagreement") or {}).get("script") or [])) + "\n", "expect": None, "tags": []}]
     else:
         cdir = os.path.join(common.VERIF, "corpus", "C07")
         for f in sorted(os.listdir(cdir)) if os.path.isdir(cdir) else []:
@@ -335,7 +412,11 @@ def run(ctx):
                 sessions.append({"script": "\n".join(rec["script"]) + "\n", "expect": ex, "tags": ["corpus:" + f],
                                  "finding": rec.get("finding"), "fmt": rec.get("fmt"), "sfmt": rec.get("sfmt"),
                                  "encs": rec.get("encs", [])})
-        n = 260 if ctx.tier == "quick" else 3000
+        for target in (126, 127, 128, 129, 16382, 16383, 16384, 16385):
+            b = gen_tight_boundary(ctx.rng, target)
+            if b:
+                sessions.append(b)
+        n = 1500 if ctx.tier == "quick" else 20000
         for _ in range(n):
             sessions.append(gen_session(ctx.rng, lzo))
     lzo.close()
@@ -373,6 +454,37 @@ def run(ctx):
             seenf.add(x["finding"])
         kept.append(x)
     fails = kept
+    # round trip: streams produced by this repository's server (harness/c07rt.c, no model involved)
+    if not ctx.replay:
+        hrt = ctx.harness("c07rt", libs=("server", "client"), extra=HARNESS_EXTRA)
+        rts = [gen_roundtrip(ctx.rng) for _ in range(60 if ctx.tier == "quick" else 1500)]
+        rres = common.pmap(lambda sc: ctx.run_lines(hrt, sc[0], timeout=120), rts)
+        dist["roundtrip"] = {"sessions": len(rts), "updates": 0, "enc": {}}
+        for (sc, encs), (rc, outl, err) in zip(rts, rres):
+            evals += 1
+            for e in encs:
+                dist["roundtrip"]["enc"][e] = dist["roundtrip"]["enc"].get(e, 0) + 1
+            bad = None
+            if rc != 0:
+                bad = {"kind": "crash", "what": "C07 round trip: harness exit %d" % rc, "detail": err[-2000:]}
+            else:
+                ops = sc.splitlines()
+                for op, ob in zip(ops, outl):
+                    if op in ("init", "update"):
+                        dist["roundtrip"]["updates"] += 1
+                        if not ob.startswith("eq"):
+                            bad = {"kind": "oracle", "what": "C07 round trip: client framebuffer differs from the server's",
+                                   "detail": "%s -> %s" % (op, ob)}
+                            break
+                    elif ob != "ok":
+                        bad = {"kind": "oracle", "what": "C07 round trip: op refused", "detail": "%s -> %s" % (op, ob)}
+                        break
+                if not bad and len(outl) != len(ops):
+                    bad = {"kind": "oracle", "what": "C07 round trip: observation count", "detail": str(outl[-3:])}
+            if bad:
+                bad["script"] = sc.splitlines()
+                bad["roundtrip"] = True
+                fails.append(bad)
     return {
         "evaluations": evals, "distinct_nontrivial": len(nontriv),
         "rule": "sessions (handshake + 1..6 server messages) produced by the reference encoder; non-trivial = distinct script exercising >= 3 distinct sub-encoding tags",
